@@ -71,6 +71,17 @@ VERUS_UNITS = {
     },
 }
 
+VERUS_UNITS["lat_set"] = {
+    "template": "contracts/verus/lat_set.rs.in", "props": LAT,
+    "what": "SetUnion<S>: merge and is_bot, generic in the backing collection S, against the trusted collection contract "
+            "(Len::len is the cardinality of the element set, Extend::extend is union); lattice_from / partial_cmp / eq use iterator "
+            "adapters (outside Verus' subset) and are decided by Kani on the cheap representations",
+    "canaries": [(r"self\.0\.len\(\) > old_len", "self.0.len() >= old_len", "merge"),
+                 (r"self\.0\.extend\(other\.0\);", "", "merge"),
+                 (r"self\.0\.is_empty\(\)", "!self.0.is_empty()", "is_bot")],
+    "twins": ["coll::set_"],
+}
+
 VERUS_UNITS["alg_semiring"] = {
     "template": "contracts/verus/alg_semiring.rs.in", "props": ["C09"],
     "what": "semiring_application.rs: BinaryTrust, Multiplicity, Cost add/mul/zero/one against abstract semirings with proved laws (f64 applications excluded)",
@@ -160,21 +171,21 @@ KANI_UNITS["vk_sim"] = {
 
 # property -> list of (engine, unit, harness filters or None, tiers)
 PROPS = {
-    "C01": [("verus", "lat_ord"), ("verus", "lat_wrap"), ("verus", "lat_pair"), ("verus", "lat_dom"),
+    "C01": [("verus", "lat_ord"), ("verus", "lat_wrap"), ("verus", "lat_pair"), ("verus", "lat_dom"), ("verus", "lat_set"),
             ("kani", "vk_lat", ["::aci", "point_u8", "coll::set_aci"], ("quick",)),
             ("kani", "vk_lat", ["::aci", "point_u8", "coll::set_aci", "coll::map_aci_small", "coll::map_comm_idem", "coll2::vec_union_aci",
                                 "coll2::union_find_merge"], ("thorough",))],
-    "C02": [("verus", "lat_ord"), ("verus", "lat_wrap"), ("verus", "lat_pair"), ("verus", "lat_dom"),
+    "C02": [("verus", "lat_ord"), ("verus", "lat_wrap"), ("verus", "lat_pair"), ("verus", "lat_dom"), ("verus", "lat_set"),
             ("kani", "vk_lat", ["::changed", "point_u8", "coll::set_merge", "coll::map_merge_option", "coll::map_merge_singleton",
                                 "coll2::vec_union_merge", "coll3::tombstone_set_merge", "coll3::tombstone_map_merge_one_entry", "dompair_incomparable_keys"], ("quick",)),
             ("kani", "vk_lat", ["::changed", "coll3::tombstone_set_merge", "coll3::tombstone_map_merge", "dompair_incomparable_keys", "point_u8", "coll::set_merge", "coll::map_merge", "coll2::vec_union_merge",
                                 "coll2::union_find_union", "coll2::union_find_merge"], ("thorough",))],
-    "C03": [("verus", "lat_ord"), ("verus", "lat_wrap"), ("verus", "lat_pair"), ("verus", "lat_dom"),
-            ("kani", "vk_lat", ["::order", "::bot", "::top", "c03_withbot_unit_is_top", "point_u8", "coll::set_cmp", "coll::set_bot_top_from",
+    "C03": [("verus", "lat_ord"), ("verus", "lat_wrap"), ("verus", "lat_pair"), ("verus", "lat_dom"), ("verus", "lat_set"),
+            ("kani", "vk_lat", ["::order", "::bot", "::top", "c03_withbot_unit_is_top", "c03_set_union_full_bool_is_top", "point_u8", "coll::set_cmp", "coll::set_bot_top_from",
                                 "coll::map_bot_top_from", "coll::set_bot_every", "coll2::vec_union_cmp", "coll3::tombstone_set_cmp"], ("quick",)),
-            ("kani", "vk_lat", ["::order", "::bot", "::top", "c03_withbot_unit_is_top", "point_u8", "coll::set_cmp", "coll::set_bot_top_from",
+            ("kani", "vk_lat", ["::order", "::bot", "::top", "c03_withbot_unit_is_top", "c03_set_union_full_bool_is_top", "point_u8", "coll::set_cmp", "coll::set_bot_top_from",
                                 "coll::map_bot_top_from", "coll::set_bot_every", "coll::map_cmp", "coll2::vec_union_cmp", "coll2::union_find_cmp", "coll3::tombstone_set_cmp"], ("thorough",))],
-    "C04": [("verus", "lat_ord"), ("verus", "lat_wrap"), ("verus", "lat_pair"), ("verus", "lat_dom"),
+    "C04": [("verus", "lat_ord"), ("verus", "lat_wrap"), ("verus", "lat_pair"), ("verus", "lat_dom"), ("verus", "lat_set"),
             ("kani", "vk_lat", ["::from", "::aci", "point_u8", "dompair_incomparable_keys", "coll::set_merge", "coll::set_bot_top_from", "coll::map_merge_option",
                                 "coll::map_merge_singleton", "coll::map_bot_top_from", "coll2::vec_union_merge", "coll2::vec_union_cmp"], ("quick",)),
             ("kani", "vk_lat", ["::from", "::aci", "point_u8", "dompair_incomparable_keys", "coll::set_merge", "coll::set_bot_top_from", "coll::map_merge",
